@@ -17,6 +17,7 @@ package main
 import (
 	"fmt"
 	"go/constant"
+	"go/token"
 	"go/types"
 	"sort"
 	"strings"
@@ -424,7 +425,7 @@ func (p *Program) constGlobalMaps(rel string) (map[string]map[string]aval, error
 			if !ok {
 				continue
 			}
-			if kb, ok := mt.Key().Underlying().(*types.Basic); !ok || kb.Info()&types.IsString == 0 {
+			if kb, ok := mt.Key().Underlying().(*types.Basic); !ok || kb.Info()&(types.IsString|types.IsInteger) == 0 {
 				continue
 			}
 			cands = append(cands, cand{g, mk})
@@ -475,7 +476,7 @@ func (p *Program) constGlobalMaps(rel string) (map[string]map[string]aval, error
 			switch x := ref.(type) {
 			case *ssa.MapUpdate:
 				k, ok := x.Key.(*ssa.Const)
-				if !ok || k.Value == nil || k.Value.Kind() != constant.String {
+				if !ok || k.Value == nil || (k.Value.Kind() != constant.String && k.Value.Kind() != constant.Int) {
 					okTab = false
 					continue
 				}
@@ -490,7 +491,7 @@ func (p *Program) constGlobalMaps(rel string) (map[string]map[string]aval, error
 				case *ssa.Function:
 					v = aval{k: kNonNil, fn: y}
 				}
-				tab[constant.StringVal(k.Value)] = v
+				tab[constKey(k.Value)] = v
 			case *ssa.Store:
 				stores++
 			case *ssa.DebugRef:
@@ -613,4 +614,207 @@ func (p *Program) allConstMaps() map[string]map[string]aval {
 	}
 	p.constMaps = out
 	return out
+}
+
+// constKey: the key under which a constant map key is filed in a constant-map table.
+func constKey(c constant.Value) string {
+	if c.Kind() == constant.String {
+		return constant.StringVal(c)
+	}
+	return "\x00int:" + c.ExactString()
+}
+
+// constGlobalValue: the value of a package-level variable that the package
+// initialiser builds once from constants (a slice / array literal of
+// constants or of structs of constants) and that no repository function
+// writes, re-slices into, or takes the address of: every load yields it.
+func (p *Program) constGlobalValue(g *ssa.Global) (aval, bool) {
+	if p.constGlobals == nil {
+		p.constGlobals = map[*ssa.Global]*aval{}
+	}
+	if v, done := p.constGlobals[g]; done {
+		if v == nil {
+			return aval{}, false
+		}
+		return *v, true
+	}
+	p.constGlobals[g] = nil
+	if g.Pkg == nil || !inRepoPath(g.Pkg.Pkg.Path()) {
+		return aval{}, false
+	}
+	switch g.Type().(*types.Pointer).Elem().Underlying().(type) {
+	case *types.Slice, *types.Array:
+	default:
+		return aval{}, false
+	}
+	init := g.Pkg.Func("init")
+	if init == nil {
+		return aval{}, false
+	}
+	var src ssa.Value
+	n := 0
+	for _, b := range init.Blocks {
+		for _, ins := range b.Instrs {
+			if st, ok := ins.(*ssa.Store); ok && st.Addr == ssa.Value(g) {
+				src = st.Val
+				n++
+			}
+		}
+	}
+	if n != 1 {
+		return aval{}, false
+	}
+	// every other use in the repository is a plain load whose result is only read
+	for _, fn := range p.RepoFuncs() {
+		for _, b := range fn.Blocks {
+			for _, ins := range b.Instrs {
+				var ops [16]*ssa.Value
+				for _, op := range ins.Operands(ops[:0]) {
+					if op == nil || *op != ssa.Value(g) {
+						continue
+					}
+					switch x := ins.(type) {
+					case *ssa.Store:
+						if fn != init {
+							return aval{}, false
+						}
+					case *ssa.UnOp:
+						if x.Op != token.MUL {
+							return aval{}, false
+						}
+						if x.Referrers() != nil {
+							for _, ref := range *x.Referrers() {
+								if ia, ok := ref.(*ssa.IndexAddr); ok && ia.Referrers() != nil {
+									for _, r3 := range *ia.Referrers() {
+										if st, ok := r3.(*ssa.Store); ok && st.Addr == ssa.Value(ia) {
+											return aval{}, false
+										}
+									}
+								}
+							}
+						}
+					default:
+						return aval{}, false
+					}
+				}
+			}
+		}
+	}
+	v, ok := constComposite(src, 0)
+	if !ok {
+		return aval{}, false
+	}
+	p.constGlobals[g] = &v
+	return v, true
+}
+
+// constComposite: the value of a composite literal of constants as the initialiser builds it.
+func constComposite(v ssa.Value, depth int) (aval, bool) {
+	if depth > 4 {
+		return aval{}, false
+	}
+	switch x := v.(type) {
+	case *ssa.Const:
+		if x.Value != nil {
+			return aval{k: kConst, c: x.Value}, true
+		}
+		if x.IsNil() {
+			return aval{k: kNil}, true
+		}
+		return zeroOf(x.Type()), true
+	case *ssa.Function:
+		return aval{k: kNonNil, fn: x}, true
+	case *ssa.ChangeType:
+		return constComposite(x.X, depth+1)
+	case *ssa.Convert:
+		if c, ok := x.X.(*ssa.Const); ok && c.Value != nil {
+			return convertConst(aval{k: kConst, c: c.Value}, x.Type()), true
+		}
+	case *ssa.MakeInterface:
+		e, ok := constComposite(x.X, depth+1)
+		if !ok {
+			return aval{}, false
+		}
+		if e.k == kConst {
+			e.dyn = x.X.Type()
+		}
+		return e, true
+	case *ssa.Slice:
+		if x.Low != nil || x.High != nil {
+			return aval{}, false
+		}
+		al, ok := x.X.(*ssa.Alloc)
+		if !ok {
+			return aval{}, false
+		}
+		at, ok := al.Type().(*types.Pointer).Elem().Underlying().(*types.Array)
+		if !ok || at.Len() > 256 {
+			return aval{}, false
+		}
+		out := aval{k: kSlice, n: int(at.Len()), elems: make([]aval, at.Len())}
+		st, isStruct := at.Elem().Underlying().(*types.Struct)
+		for i := range out.elems {
+			if isStruct {
+				e := aval{k: kStruct, elems: make([]aval, st.NumFields())}
+				for j := range e.elems {
+					e.elems[j] = zeroOf(st.Field(j).Type())
+				}
+				out.elems[i] = e
+			} else {
+				out.elems[i] = zeroOf(at.Elem())
+			}
+		}
+		if al.Referrers() == nil {
+			return out, true
+		}
+		for _, ref := range *al.Referrers() {
+			switch y := ref.(type) {
+			case *ssa.Slice, *ssa.DebugRef:
+			case *ssa.IndexAddr:
+				k, ok := y.Index.(*ssa.Const)
+				if !ok || k.Value == nil || y.Referrers() == nil {
+					return aval{}, false
+				}
+				ki, _ := constant.Int64Val(k.Value)
+				if ki < 0 || int(ki) >= len(out.elems) {
+					return aval{}, false
+				}
+				for _, r2 := range *y.Referrers() {
+					switch z := r2.(type) {
+					case *ssa.Store:
+						if z.Addr != ssa.Value(y) {
+							return aval{}, false
+						}
+						e, ok := constComposite(z.Val, depth+1)
+						if !ok {
+							return aval{}, false
+						}
+						out.elems[ki] = e
+					case *ssa.FieldAddr:
+						if !isStruct || z.Referrers() == nil {
+							return aval{}, false
+						}
+						for _, r3 := range *z.Referrers() {
+							s3, ok := r3.(*ssa.Store)
+							if !ok || s3.Addr != ssa.Value(z) {
+								return aval{}, false
+							}
+							e, ok := constComposite(s3.Val, depth+1)
+							if !ok {
+								return aval{}, false
+							}
+							out.elems[ki].elems[z.Field] = e
+						}
+					case *ssa.DebugRef:
+					default:
+						return aval{}, false
+					}
+				}
+			default:
+				return aval{}, false
+			}
+		}
+		return out, true
+	}
+	return aval{}, false
 }
